@@ -477,8 +477,10 @@ theorem demand_inv (hC : CatWF C) (hσ : SchedOK σ) {L : List N} {s s1 : St N I
     have key : ∀ s0 : St N I F V S, Inv C L s0 → StoreLe C s s0 → s0.v = s.v → s0.inp = s.inp →
         (∀ x, x ∈ s.specs → x ∈ s0.specs) → s0.refused = s.refused → s0.ideps = s.ideps →
         s0.fdeps = s.fdeps → m ∈ s0.fmap →
-        Inv C L { s0 with queue := σ.sortQ (s0.queue ++ [m]), solving := s0.solving ++ [m] } ∧
-        DemandPost (C := C) s { s0 with queue := σ.sortQ (s0.queue ++ [m]), solving := s0.solving ++ [m] } m := by
+        Inv C L { s0 with queue := σ.sortQ (s0.queue ++ [m]), solving := s0.solving ++ [m],
+                          log := .push m :: s0.log } ∧
+        DemandPost (C := C) s { s0 with queue := σ.sortQ (s0.queue ++ [m]), solving := s0.solving ++ [m],
+                                        log := .push m :: s0.log } m := by
       intro s0 hinv0 hle0 hv0 hi0 hsp0 hr0 him0 hfd0 hmf
       refine ⟨?_, ?_⟩
       · refine hinv0.frame rfl rfl rfl rfl rfl (fun _ h => h) (fun _ h => h)
@@ -516,7 +518,7 @@ theorem demand_inv (hC : CatWF C) (hσ : SchedOK σ) {L : List N} {s s1 : St N I
         exact ⟨hle0.v, hle0.i, hle0.f⟩
     split at h
     · rename_i hmf
-      simp only [hmf, if_true] at h
+      simp only [hmf, if_true, hm, if_false] at h
       cases h
       exact key s hinv (StoreLe.refl C _) rfl rfl (fun _ h => h) rfl rfl rfl hmf
     · rename_i hmf
@@ -530,10 +532,15 @@ theorem demand_inv (hC : CatWF C) (hσ : SchedOK σ) {L : List N} {s s1 : St N I
           simp only [hadd] at h
           split at h
           · rename_i hmf0
-            cases h
             obtain ⟨_, h0, h1, hfd, hid, _, hr, hspecs, _, _⟩ := addForm_ok hadd
-            exact key s0 (addForm_inv hC hσ hinv hadd) (addForm_storeLe hadd) h0 h1
-              (fun x hx => (hspecs x).mpr (Or.inl hx)) hr hid hfd hmf0
+            split at h
+            · rename_i hms0
+              cases h
+              exact ⟨addForm_inv hC hσ hinv hadd, h0, h1, addForm_storeLe hadd, hms0,
+                fun x hx => (hspecs x).mpr (Or.inl hx), hr, hid, hfd⟩
+            · cases h
+              exact key s0 (addForm_inv hC hσ hinv hadd) (addForm_storeLe hadd) h0 h1
+                (fun x hx => (hspecs x).mpr (Or.inl hx)) hr hid hfd hmf0
           · simp at h
 
 /-! ## one attempt at a line -/
